@@ -48,6 +48,7 @@ def run(ctx):
            construct='ConditionalEventSequenceEncoderDecoder.%s' % name)
   wide_label(ctx)      # location-independent rules first
   chord_labels(ctx)
+  full_history(ctx)
   lookback(ctx, 'encoder_decoder:LookbackEventSequenceEncoderDecoder')
   lookback(ctx, 'melody_encoder_decoder:KeyMelodyEncoderDecoder')
   wrapper(ctx)
@@ -389,6 +390,44 @@ def noteperf(ctx):
   ei = ci.methods['events_to_input']
   ok = any(isinstance(s, ast.Assign) and norm_text(s.value) == '[0.0] * self._num_classes[i]' for s in U.walk_stmts(ei.node))
   ctx.ob('NOTEPERF/blocks', ei, ei.node, ok, 'block i has width _num_classes[i]' if ok else 'the one-hot blocks are not sized by _num_classes[i]', construct='note-performance block widths')
+
+
+def full_history(ctx):
+  """Location-independent: class_index_to_event(label, events) reads events[-d] for every listed lookback distance d, in whatever
+  order the distances are listed.  The history handed to it in labels_to_num_steps must therefore be the complete list of events
+  generated so far, or a bounded one whose bound is the *maximum* distance; a deque bounded by one positional element of the
+  list (`[-1]`, `[0]`) is too short as soon as the distances are not listed in ascending order."""
+  for cq in ('encoder_decoder:LookbackEventSequenceEncoderDecoder', 'melody_encoder_decoder:KeyMelodyEncoderDecoder'):
+    ci = ctx.cls(cq)
+    m = ci.methods.get('labels_to_num_steps')
+    if m is None:
+      continue
+    fn = m.node
+    for c in U.calls_in(fn):
+      if not (isinstance(c.func, ast.Attribute) and c.func.attr == 'class_index_to_event' and len(c.args) >= 2 and isinstance(c.args[1], ast.Name)):
+        continue
+      h = c.args[1].id
+      defs = [s for s in U.walk_stmts(fn) if isinstance(s, ast.Assign) and len(s.targets) == 1 and isinstance(s.targets[0], ast.Name) and s.targets[0].id == h]
+      for d in defs:
+        v = d.value
+        if isinstance(v, ast.Call) and (dotted(v.func) or '').split('.')[-1] == 'deque':
+          ml = next((k.value for k in v.keywords if k.arg == 'maxlen'), v.args[1] if len(v.args) > 1 else None)
+          if ml is None or U.const_value(ml) is None and norm_text(ml) == 'None':
+            continue
+          mxs = [U.expand_locals(fn, ml, at=d)]
+          if isinstance(mxs[0], ast.Name):       # bound on several paths (if / else): every binding counts
+            mxs = [s.value for s in U.walk_stmts(fn) if isinstance(s, ast.Assign) and len(s.targets) == 1 and norm_text(s.targets[0]) == mxs[0].id]
+          is_max = bool(mxs) and all(any(isinstance(x, ast.Call) and dotted(x.func) == 'max' for x in ast.walk(mx)) or U.const_value(mx) is not None for mx in mxs) and \
+              any(any(isinstance(x, ast.Call) and dotted(x.func) == 'max' for x in ast.walk(mx)) for mx in mxs)
+          positional = [x for mx in mxs for x in ast.walk(mx) if isinstance(x, ast.Subscript) and norm_text(x.value).endswith('_lookback_distances') and U.const_value(x.slice) is not None]
+          if positional and not is_max:
+            ctx.ob('GEN/full-history', m, d, False, 'the history given to class_index_to_event is a deque bounded by %s, one positional entry of the lookback list: with distances not '
+                   'listed in ascending order (e.g. [2, 1]) a repeat of the longer distance finds too little history and decodes to the default event, so labels_to_num_steps '
+                   'differs from the steps of the sequence the generation loop builds' % norm_text(positional[0]), construct='history handed to class_index_to_event', definite=True)
+          elif is_max:
+            ctx.ob('GEN/full-history', m, d, True, 'the history is bounded by the maximum lookback distance', construct='history handed to class_index_to_event', definite=True)
+        elif isinstance(v, (ast.List,)) and not v.elts:
+          ctx.ob('GEN/full-history', m, d, True, 'the history is the complete list of events generated so far', construct='history handed to class_index_to_event', definite=True)
 
 
 def chord_labels(ctx):
